@@ -286,7 +286,9 @@ func (g *sqGen) defaultFor(typ string) string {
 		// which evaluates to the NULL keyword: an ambiguity of the HCL form, kept out of the generator)
 		return hx.Pick(g.r, []string{"'x'", "''", "'it''s'", "'hello world'", "'100%'", "NULL", "'5'", "'x''00'"})
 	case isTextType(typ):
-		return hx.Pick(g.r, []string{"'x'", "''", "'it''s'", "'hello world'", "'100%'", "NULL", "'NULL'", "'5'", "'x''00'"})
+		// (the last two are written between double quotes, which SQLite reads as strings and the inspector
+		// keeps as written: the planner re-quotes them)
+		return hx.Pick(g.r, []string{"'x'", "''", "'it''s'", "'hello world'", "'100%'", "NULL", "'NULL'", "'5'", "'x''00'", `"it's"`, `"two words"`})
 	case typ == "boolean":
 		return hx.Pick(g.r, []string{"0", "1", "true", "false"})
 	case typ == "datetime" || typ == "date":
@@ -493,11 +495,27 @@ type sqEdit struct {
 func (g *sqGen) edit(s *sqSchema) *sqEdit {
 	for try := 0; try < 20; try++ {
 		t := hx.Pick(g.r, s.Tables)
-		switch g.r.Intn(15) {
+		switch g.r.Intn(16) {
+		case 15:
+			// a generated column becomes an ordinary one (same name and type): its computed values survive
+			for i := range t.Cols {
+				c := &t.Cols[i]
+				if c.Gen != "" && !indexed(t, c.Name) {
+					c.Gen, c.GenStored, c.NotNull, c.Default = "", false, false, ""
+					return &sqEdit{"generated-to-regular-column", t.Name, c.Name}
+				}
+			}
 		case 14:
 			// every stored column of the table gets another default at once: the table is rebuilt and no column
 			// is carried over unchanged
 			n := 0
+			refs := false
+			for _, c := range t.Cols {
+				refs = refs || strings.HasPrefix(c.Name, "r")
+			}
+			if refs {
+				continue // (a default on a referencing column fills it with a key that has no parent)
+			}
 			for i := range t.Cols {
 				c := &t.Cols[i]
 				if c.Gen != "" {
@@ -959,6 +977,11 @@ func catalog(db *sql.DB) ([]string, error) {
 			var name, typ, dflt string
 			var nn, pk, hidden int
 			r.Scan(&name, &typ, &nn, &dflt, &pk, &hidden)
+			if len(dflt) >= 2 && dflt[0] == '"' && dflt[len(dflt)-1] == '"' {
+				// a string written between double quotes is the same default as its single-quoted form
+				inner := strings.ReplaceAll(dflt[1:len(dflt)-1], `""`, `"`)
+				dflt = "'" + strings.ReplaceAll(inner, "'", "''") + "'"
+			}
 			for len(dflt) > 2 && dflt[0] == '(' && dflt[len(dflt)-1] == ')' && parenBalanced(dflt[1:len(dflt)-1]) {
 				dflt = dflt[1 : len(dflt)-1] // redundant outer parentheses of an expression default
 			}
